@@ -492,6 +492,12 @@ var classGens = []classGen{
 		default:
 			g.emitH(cl, v, k.pk, msg, sig, ctx, ref.Unspecified)
 		}
+		// R replaced by -R before hashing: only a verifier that ignores the sign of x accepts
+		{
+			r := new(big.Int).Mod(ref.LE(g.r.Bytes(64)), g.c.L)
+			Rneg := g.c.Encode(g.c.Neg(g.c.ScalarMult(r, g.c.Gen)))
+			g.emitH("R-negated", v, k.pk, msg, g.c.SignWithR(k.sk.S, r, Rneg, k.pk, dom, phm), ctx, ref.MustReject)
+		}
 		// mixed-order R = [r]B + T
 		T := t.soPts[1+g.r.Intn(len(t.soPts)-1)]
 		sig2 := g.c.SignRaw(k.sk, k.pk, dom, phm, nil, T)
@@ -726,7 +732,7 @@ func evalCase(a *api, mon, pre string, cs vcase, hintFail *sync.Map) {
 		return d
 	}
 	if p := lib.Try(entry, in, func() { got = a.base(cs.v, cs.pk, cs.msg, cs.sig, cs.ctx) }); p != nil {
-		lib.Violation("C05:panic:"+entry+":"+cs.class, mon, detail("panic", p.Value, "frame", p.TopFrame()))
+		lib.Violation("C05:panic:"+entry+":"+p.TopFrame(), mon, detail("panic", p.Value, "frame", p.TopFrame()))
 		return
 	}
 	switch vd.Expect {
@@ -756,7 +762,7 @@ func evalCase(a *api, mon, pre string, cs vcase, hintFail *sync.Map) {
 	for _, w := range a.wrappers {
 		var wg, ok bool
 		if p := lib.Try(w.name, in, func() { wg, ok = w.f(cs.v, cs.pk, cs.msg, cs.sig, cs.ctx) }); p != nil {
-			lib.Violation("C05:panic:"+w.name+":"+cs.class, mon, detail("panic", p.Value, "frame", p.TopFrame()))
+			lib.Violation("C05:panic:"+w.name+":"+p.TopFrame(), mon, detail("panic", p.Value, "frame", p.TopFrame()))
 			continue
 		}
 		if !ok {
@@ -783,9 +789,9 @@ func evalCase(a *api, mon, pre string, cs vcase, hintFail *sync.Map) {
 }
 
 func TestVerifVerify25519(t *testing.T) {
-	runVerify(t, api25519, "TestVerifVerify25519", lib.Scale(24, 800))
+	runVerify(t, api25519, "TestVerifVerify25519", lib.Scale(24, 400))
 }
 
 func TestVerifVerify448(t *testing.T) {
-	runVerify(t, api448, "TestVerifVerify448", lib.Scale(20, 500))
+	runVerify(t, api448, "TestVerifVerify448", lib.Scale(20, 240))
 }
